@@ -42,7 +42,8 @@ def stat_case(draw, nfmax=16, ndmax=24):
     # one case in four: the object first holds other coordinates/values, statistics are taken, then it is edited in place
     warm = draw(st.one_of(st.none(), st.none(), st.none(), st.fixed_dictionaries(dict(
         fs=st.sampled_from([0.5, 0.8, 1.25, 2.0, "sq"]), ds=st.floats(1.0, 359.0), amp=st.sampled_from([1.0, 3.0])))))
-    return dict(fg=fg, dg=dg, dims=dims, specs=specs, dtype=dtype, depth=depth, warm=warm)
+    theta = draw(st.one_of(st.none(), st.sampled_from([0.0, 45.0, 180.0, 270.0]), st.floats(-360.0, 720.0)))
+    return dict(fg=fg, dg=dg, dims=dims, specs=specs, dtype=dtype, depth=depth, warm=warm, theta=theta)
 
 
 def _close(lib, ref, rtol, atol=0.0):
@@ -138,7 +139,7 @@ def check_stats(case, ctx):
     sp = da.spec
     lib = {}
     calls = {
-        "hs": lambda: sp.hs(), "hs_notail": lambda: sp.hs(tail=False), "hrms": lambda: sp.hrms(),
+        "hs": lambda: sp.hs(), "hs_notail": lambda: sp.hs(tail=False), "hrms": lambda: sp.hrms(), "hrms_notail": lambda: sp.hrms(tail=False),
         "tm01": lambda: sp.tm01(), "tm02": lambda: sp.tm02(), "swe": lambda: sp.swe(), "sw": lambda: sp.sw(),
         "gw": lambda: sp.gw(), "goda": lambda: sp.goda(), "mss": lambda: sp.mss(depth=depth),
         "oned": lambda: sp.oned(), "to_energy": lambda: sp.to_energy(), "hmax": lambda: sp.hmax(),
@@ -151,6 +152,15 @@ def check_stats(case, ctx):
             "uss_y": lambda: sp.uss_y(depth=depth), "uss": lambda: sp.uss(depth=depth), "momd1": lambda: sp.momd(1),
             "momd2": lambda: sp.momd(2), "momd0": lambda: sp.momd(0), "crsd": lambda: sp.crsd(), "fdspr": lambda: sp.fdspr(),
         })
+    theta = case.get("theta") if has_dir else None
+    if theta is not None:
+        # the documented angle offset of the directional moments / drift components, and the spread of another order
+        calls.update({
+            "momd1_theta": lambda: sp.momd(1, theta=theta), "crsd_theta": lambda: sp.crsd(theta=theta),
+            "uss_x_theta": lambda: sp.uss_x(depth=depth, theta=theta), "uss_y_theta": lambda: sp.uss_y(depth=depth, theta=theta),
+            "fdspr2": lambda: sp.fdspr(mom=2),
+        })
+        ctx.label("theta-offset")
     for name, fn in calls.items():
         with ctx.lib("spec.%s" % name):
             lib[name] = fn()
@@ -179,6 +189,7 @@ def check_stats(case, ctx):
         need("hs", _close(val("hs"), ref.hs(), rt), ref.hs())
         need("hs_notail", _close(val("hs_notail"), ref.hs(tail=False), rt), ref.hs(tail=False))
         need("hrms", _close(val("hrms"), ref.hrms(), rt), ref.hrms())
+        need("hrms_notail", _close(val("hrms_notail"), ref.hrms(tail=False), rt), ref.hrms(tail=False))
         for n in range(5):
             need("momf%d" % n, _close(val("momf%d" % n), ref.momf(n), rt), ref.momf(n))
         if m0 > 0:
@@ -244,6 +255,35 @@ def check_stats(case, ctx):
                 if ref.S[i] > 0:
                     radi = 1.0 - math.hypot(ms[i], mc[i]) / ref.S[i]
                     _cmp_radicand("fdspr", float(lfd[i]), 2.0 * R.R2D**2 * radi, 4.0 * R.R2D**2, 8 * rt, lead, idx)
+            if theta is not None:
+                angt = np.radians(180.0 + theta - dirs)
+                st_, ct_ = np.sin(angt), np.cos(angt)
+                rs_ = np.array([math.fsum((E[i] * st_).tolist()) for i in range(len(f))]) * ref.dd
+                rc_ = np.array([math.fsum((E[i] * ct_).tolist()) for i in range(len(f))]) * ref.dd
+                rx_ = np.array([math.fsum((E[i] * st_ * ct_).tolist()) for i in range(len(f))]) * ref.dd
+                l_s = np.asarray(_at(lib["momd1_theta"][0], lead, idx), dtype=float).reshape(-1)
+                l_c = np.asarray(_at(lib["momd1_theta"][1], lead, idx), dtype=float).reshape(-1)
+                l_x = np.asarray(_at(lib["crsd_theta"], lead, idx), dtype=float).reshape(-1)
+                tol_ = 4 * rt * mabs + 1e-300
+                if not (np.all(np.abs(l_s - rs_) <= tol_) and np.all(np.abs(l_c - rc_) <= tol_)):
+                    raise Violation("momd-theta", "momd(1, theta=%r) differs from sum E sin/cos(180+theta-dir) dd" % theta)
+                if not np.all(np.abs(l_x - rx_) <= tol_):
+                    raise Violation("crsd-theta", "crsd(theta=%r) differs from sum E sin cos(180+theta-dir) dd" % theta)
+                kk = ref.k(depth)
+                wgt = ref.dd * 4.0 * math.pi * ref.f * kk * ref.df
+                xt, yt, tt = float(np.sum(wgt * rc_ / ref.dd)), float(np.sum(wgt * rs_ / ref.dd)), float(np.sum(wgt * mabs / ref.dd))
+                tolk_ = (4 * rt) if depth is None else ktol
+                for name_, refv_ in (("uss_x_theta", xt), ("uss_y_theta", yt)):
+                    if abs(val(name_) - refv_) > tolk_ * abs(tt) + 1e-300:
+                        raise Violation(name_, "position %s: library %r vs integral %r (depth=%r, theta=%r)" % (dict(zip(lead, idx)), val(name_), refv_, depth, theta))
+                # fdspr(mom=2): the documented m-th spread built from momd(mom)
+                ang2 = np.radians(180.0 + 90.0 - dirs)
+                s2 = np.array([math.fsum((E[i] * np.sin(ang2) ** 2).tolist()) for i in range(len(f))]) * ref.dd
+                c2 = np.array([math.fsum((E[i] * np.cos(ang2) ** 2).tolist()) for i in range(len(f))]) * ref.dd
+                lf2 = np.asarray(_at(lib["fdspr2"], lead, idx), dtype=float).reshape(-1)
+                for i in range(len(f)):
+                    if ref.S[i] > 0:
+                        _cmp_radicand("fdspr2", float(lf2[i]), 2.0 * R.R2D**2 * (1.0 - math.hypot(s2[i], c2[i]) / ref.S[i]), 4.0 * R.R2D**2, 8 * rt, lead, idx)
             if m0 > 0:
                 dmw, condw = ref.dm(weighted=True)
                 dmu, condu = ref.dm(weighted=False)
